@@ -381,11 +381,29 @@ class StrInterp:
         self.vars = dict(inputs)  # name -> AStr | ('match', kind, regex tree, source AStr, source var)
         self.problems = []
 
+    def const(self, node):
+        """value of a literal or of a constant of the package (module / class level) named by `node`; None if it is neither"""
+        if isinstance(node, ast.Constant):
+            return node.value
+        if isinstance(node, ast.Name) and (node.id in self.vars or "list:" + node.id in self.vars):
+            return None
+        stored = {n_.id for n_ in ast.walk(self.fn) if isinstance(n_, ast.Name) and isinstance(n_.ctx, ast.Store)} | {a_.arg for a_ in self.fn.args.args}
+        if any(isinstance(n_, ast.Name) and n_.id in stored for n_ in ast.walk(node)):
+            return None
+        try:
+            return self.ctx.folder.ev(node, self.fn._module)
+        except Exception:
+            return None
+
     def ev(self, node):
         if isinstance(node, ast.Constant) and isinstance(node.value, str):
             return AStr.const(node.value)
         if isinstance(node, ast.Name):
             v = self.vars.get(node.id)
+            if v is None and node.id not in self.vars:
+                c_ = self.const(node)
+                if isinstance(c_, str):
+                    return AStr.const(c_)
             return v if isinstance(v, AStr) else None
         if isinstance(node, ast.BinOp) and isinstance(node.op, ast.Add):
             a, b = self.ev(node.left), self.ev(node.right)
@@ -402,8 +420,8 @@ class StrInterp:
             if f.attr == "sub" and len(node.args) == 2:
                 rg = _regex_of(self.ctx, self.fn, f.value)
                 src = self.ev(node.args[1])
-                repl = node.args[0].value if isinstance(node.args[0], ast.Constant) else None
-                if rg is None or src is None or repl is None:
+                repl = self.const(node.args[0])
+                if rg is None or src is None or not isinstance(repl, str):
                     return None
                 surv = rx.negated_class_plus(rg[0], rg[1])
                 if surv is not None:
@@ -620,21 +638,29 @@ def _refine(ctx, fn, si, test, truth, flags):
             si.vars[var] = AStr((), (), (), True)
         return
     # x[-1] in (".", "-")   /  x.endswith / x.startswith with a constant
-    if isinstance(test, ast.Compare) and len(test.ops) == 1 and isinstance(test.ops[0], (ast.In, ast.NotIn, ast.Eq, ast.NotEq)) and isinstance(test.left, ast.Subscript) \
-            and isinstance(test.left.value, ast.Name) and norm(test.left.slice) in ("-1", "0", "-1:", ":1"):
-        var = test.left.value.id
+    ends = isinstance(test, ast.Call) and isinstance(test.func, ast.Attribute) and test.func.attr in ("endswith", "startswith") and isinstance(test.func.value, ast.Name) \
+        and len(test.args) == 1 and not test.keywords
+    if ends or (isinstance(test, ast.Compare) and len(test.ops) == 1 and isinstance(test.ops[0], (ast.In, ast.NotIn, ast.Eq, ast.NotEq)) and isinstance(test.left, ast.Subscript)
+                and isinstance(test.left.value, ast.Name) and norm(test.left.slice) in ("-1", "0", "-1:", ":1")):
+        var = test.func.value.id if ends else test.left.value.id
         cur = si.vars.get(var)
-        if isinstance(cur, AStr) and cur.maybe_empty and norm(test.left.slice) in ("-1", "0"):
+        if not ends and isinstance(cur, AStr) and cur.maybe_empty and norm(test.left.slice) in ("-1", "0"):
             si.problems.append(f"`{norm(test.left)}` is evaluated while `{var}` may be empty (IndexError)")
-        comp = test.comparators[0]
+        comp = test.args[0] if ends else test.comparators[0]
         elts = comp.elts if isinstance(comp, (ast.Tuple, ast.List, ast.Set)) else [comp]
-        if isinstance(cur, AStr) and all(isinstance(e, ast.Constant) and isinstance(e.value, str) and len(e.value) == 1 for e in elts):
+        if not isinstance(comp, (ast.Tuple, ast.List, ast.Set, ast.Constant)):
+            cv_ = si.const(comp)  # a named constant of the package
+            if isinstance(cv_, str):
+                elts = [ast.Constant(value=cv_)]
+            elif isinstance(cv_, (tuple, list, set, frozenset)) and all(isinstance(x_, str) for x_ in cv_):
+                elts = [ast.Constant(value=x_) for x_ in cv_]
+        if isinstance(cur, AStr) and elts and all(isinstance(e, ast.Constant) and isinstance(e.value, str) and len(e.value) == 1 for e in elts):
             cl = set()
             for e in elts:
                 cl |= rx.classes_of_text(e.value)
-            positive = isinstance(test.ops[0], (ast.In, ast.Eq))
+            positive = ends or isinstance(test.ops[0], (ast.In, ast.Eq))
             member = truth if positive else not truth
-            which = "last" if norm(test.left.slice) in ("-1", "-1:") else "first"
+            which = ("last" if test.func.attr == "endswith" else "first") if ends else ("last" if norm(test.left.slice) in ("-1", "-1:") else "first")
             curset = getattr(cur, which)
             singles = {c for c in cl if c in (DASH, DOT, HASH, LP, RP, rx.SL, rx.BSL, rx.COLON, SP)}
             new = (curset & cl) if member else (curset - singles)
@@ -652,6 +678,14 @@ def _interp_path(ctx, fn, p, inputs, flags, problems_out=None):
     for s in p.steps:
         st = s.ast
         if st is None:
+            continue
+        if s.kind == "stmt" and isinstance(st, ast.AugAssign) and isinstance(st.target, ast.Name):
+            # x += e  is  x = x + e  for strings; any other augmented assignment loses track of the value
+            if isinstance(st.op, ast.Add):
+                a_, b_ = si.ev(ast.Name(id=st.target.id, ctx=ast.Load())), si.ev(st.value)
+                si.vars[st.target.id] = a_.concat(b_) if isinstance(a_, AStr) and isinstance(b_, AStr) else None
+            else:
+                si.vars[st.target.id] = None
             continue
         if s.kind == "stmt" and isinstance(st, ast.Assign) and len(st.targets) == 1 and isinstance(st.targets[0], ast.Name):
             t = st.targets[0].id
@@ -697,7 +731,19 @@ def _interp_path(ctx, fn, p, inputs, flags, problems_out=None):
 def rule_N4(ctx):
     """export names: non-empty, alphabet within {word, space, - . #} (plus the counter's parentheses),
     first character a word character, no trailing blank, directories do not end in a dot; safe names are stripped"""
-    me = ctx.fn(ST, "Image.make_export_name", "N4")
+    me0 = ctx.fn(ST, "Image.make_export_name", "N4")
+    # analysed with every `if A and B: S` (no else) read as `if A: if B: S` - the same statements in the same order - so that the
+    # string model sees one decision per operand
+    from ..core.loader import clone as _clone4, set_parents as _sp4
+    from ..core.inline import normalise_and_if as _nai4
+    me = _clone4(me0)
+    _nai4(me)
+    ast.fix_missing_locations(me)
+    _sp4(me)
+    me._parent = getattr(me0, "_parent", None)
+    for a_ in ("_module", "_qualname"):
+        if hasattr(me0, a_):
+            setattr(me, a_, getattr(me0, a_))
     prs = [p for p in run_paths(ctx, me, rule="N4") if p.end == "return"]
     if not prs:
         raise AnalysisError("N4", where(me), "no return path")
@@ -1439,6 +1485,8 @@ def rule_N6(ctx):
                         feasible = False
                     elif v != (s_.label == "true"):
                         feasible = False
+                    if not feasible:
+                        break  # the tests after an untaken decision are not reached in this case
                 if not feasible:
                     continue
                 k = p.ret.key() if p.ret is not None else ""
@@ -1725,15 +1773,24 @@ def rule_N8(ctx):
     from .sem import emptiness_by as _eb8
     ok = False
     for i in own_nodes(pp):
-        if not (isinstance(i, ast.If) and isinstance(i.test, ast.BoolOp) and isinstance(i.test.op, ast.And) and len(i.test.values) == 2 and not i.orelse and len(i.body) == 1):
+        if not (isinstance(i, ast.If) and not i.orelse):
+            continue
+        # the guard as a list of conjuncts: `if A and B: S` and `if A: if B: S` are the same decision
+        conj, body_ = [], [i]
+        while len(body_) == 1 and isinstance(body_[0], ast.If) and not body_[0].orelse:
+            t_ = body_[0].test
+            conj += list(t_.values) if isinstance(t_, ast.BoolOp) and isinstance(t_.op, ast.And) else [t_]
+            body_ = body_[0].body
+        if len(conj) != 2 or len(body_) != 1:
             continue
         lst = None
-        for nm in {x.id for x in ast.walk(i.test.values[0]) if isinstance(x, ast.Name)}:
-            if _eb8(i.test.values[0], lambda e, nm=nm: isinstance(e, ast.Name) and e.id == nm) is False:
+        for nm in {x.id for x in ast.walk(conj[0]) if isinstance(x, ast.Name)}:
+            if _eb8(conj[0], lambda e, nm=nm: isinstance(e, ast.Name) and e.id == nm) is False:
                 lst = nm
         if lst is None:
             continue
-        second = i.test.values[1]
+        second = conj[1]
+        i = ast.If(test=i.test, body=body_, orelse=[])
         last_empty = _eb8(second, lambda e: isinstance(e, ast.Subscript) and isinstance(e.value, ast.Name) and e.value.id == lst and norm(e.slice) == "-1") is True \
             or (isinstance(second, ast.Compare) and len(second.ops) == 1 and isinstance(second.ops[0], ast.Eq) and norm(second.left) == f"{lst}[-1]" and norm(second.comparators[0]) == "''")
         b0 = norm(i.body[0])
@@ -1741,6 +1798,28 @@ def rule_N8(ctx):
         if last_empty and drops:
             ok = True
     ctx.ob("N8", pp, "an empty last token (trailing separator, or the empty path) is dropped", ok, "", inst="trailing-separator")
+    # `if not child: raise ErrorNoChildWithName` decides "found" by the truth value of the element: an element class that defines
+    # __len__ / __bool__ makes a found-but-empty directory count as not found
+    truth_tests = []
+    for i in own_nodes(pp):
+        if isinstance(i, ast.If):
+            t_ = i.test
+            while isinstance(t_, ast.UnaryOp) and isinstance(t_.op, ast.Not):
+                t_ = t_.operand
+            if isinstance(t_, ast.Name) and any(isinstance(a_, ast.Assign) and norm(a_.targets[0]) == t_.id and isinstance(a_.value, ast.Call) and norm(a_.value.func) == "next"
+                                                for a_ in own_nodes(pp)):
+                truth_tests.append(i)
+    offenders = []
+    for m_ in ctx.prog.modules.values():
+        for q_, c_ in m_.classes.items():
+            names_ = {k_.name for k_ in ctx.prog.mro(c_)}
+            if names_ & {"Element", "Traversable"}:
+                for st_ in c_.body:
+                    if isinstance(st_, ast.FunctionDef) and st_.name in ("__len__", "__bool__"):
+                        offenders.append(f"{m_.path}:{q_}.{st_.name}")
+    ok = not truth_tests or not offenders
+    ctx.ob("N8", truth_tests[0] if truth_tests else pp, "a looked-up item counts as found whatever it contains (the lookup tests the item's truth value; no element class defines __len__ / __bool__)",
+           ok, "" if ok else f"{sorted(offenders)}: an empty directory is falsy, so a path that names it is answered with `was not found`", inst="lookup-truthiness")
     wl = [w for w in own_nodes(pp) if isinstance(w, ast.While)]
     ok = len(wl) == 1 and len([c for c in ast.walk(wl[0]) if isinstance(c, ast.Call) and norm(c.func) == "next"]) == 2 \
         and any(norm(a) == "tokens.append(next_token)" for a in ast.walk(wl[0]) if isinstance(a, ast.Call))
@@ -2007,7 +2086,9 @@ def rule_N9(ctx):
                 continue
             # values before the loop (e.g. `path = self.path`) are part of the environment
             pre = {}
-            for st_ in pe.body if not isinstance(pe.body[0], ast.If) else pe.body[0].body:
+            holder = next((b_ for n_ in ast.walk(pe) for b_ in (getattr(n_, "body", None), getattr(n_, "orelse", None))
+                           if isinstance(b_, list) and any(x_ is ploops[0] for x_ in b_)), pe.body)
+            for st_ in holder:
                 if st_ is ploops[0]:
                     break
                 if isinstance(st_, ast.Assign) and len(st_.targets) == 1 and isinstance(st_.targets[0], ast.Name):
@@ -2182,10 +2263,19 @@ def rule_X1(ctx):
                                 if norm(part.args[1]) == "Mapping" and len(parts) == 1:
                                     mapv = taken
                     it_key = _evx(ctx, bi, s_.env).ev(loops[0].iter).key()
+                    if isinstance(loops[0].iter, ast.Name):
+                        # the iterable kept in a local: the expression last assigned to it on this path (its text, not an abbreviated term)
+                        for s2_ in p.steps:
+                            if s2_ is s_:
+                                break
+                            if s2_.kind == "stmt" and isinstance(s2_.ast, ast.Assign) and len(s2_.ast.targets) == 1 and isinstance(s2_.ast.targets[0], ast.Name) \
+                                    and s2_.ast.targets[0].id == loops[0].iter.id:
+                                it_key = norm(s2_.ast.value)
                     src_terms[(seqv, mapv)] = it_key
         seq_src = [v for (sq, mp), v in src_terms.items() if sq is True]
-        map_src = [v for (sq, mp), v in src_terms.items() if sq is False]
-        kinds_ok = bool(seq_src) and bool(map_src) and all("enumerate(" + item + ")" in v and "prev_key" in v for v in seq_src) and all(v == f"{item}.items()" for v in map_src)
+        map_src = [v for (sq, mp), v in src_terms.items() if sq is False and mp is not False]
+        none_src = [v for (sq, mp), v in src_terms.items() if sq is False and mp is False]  # neither kind: nothing to render
+        kinds_ok = all(v in ("()", "[]", "tuple()", "list()", "{}") for v in none_src) and bool(seq_src) and bool(map_src) and all("enumerate(" + item + ")" in v and "prev_key" in v for v in seq_src) and all(v == f"{item}.items()" for v in map_src)
         kdet = "" if kinds_ok else f"pairs come from {src_terms}"
     ctx.ob("X1", bi, "every key of an item produces one row; nested values are expanded below it", ok, "" if ok else det, inst="tree-rows")
     ctx.ob("X1", bi, "sequences are rendered element by element, mappings key by key", kinds_ok, kdet, inst="tree-kinds")
